@@ -97,7 +97,9 @@ pub fn substr(items: &Vec<&Value>) -> Result<Value, Error> {
         })
         .transpose()?;
 
-    let string_len = string.len();
+    // Indexes count characters (the slice below is taken with chars()),
+    // so the length they are clamped against must too, not bytes.
+    let string_len = string.chars().count();
 
     let idx_abs: usize = idx.unsigned_abs().try_into().map_err(|e| Error::InvalidArgument {
         value: idx_arg.clone(),
